@@ -69,6 +69,8 @@ func (nz *normalizer) WalkStatement(node SQLNode) (bool, error) {
 		nz.convertSQLVal(node)
 	case *ComparisonExpr:
 		nz.convertComparison(node)
+	case *GroupConcatExpr:
+		nz.convertSeparator(node)
 	}
 	return true, nil
 }
@@ -80,8 +82,18 @@ func (nz *normalizer) WalkSelect(node SQLNode) (bool, error) {
 		nz.convertSQLValDedup(node)
 	case *ComparisonExpr:
 		nz.convertComparison(node)
+	case *GroupConcatExpr:
+		nz.convertSeparator(node)
 	}
 	return true, nil
+}
+
+// convertSeparator masks the SEPARATOR string of GROUP_CONCAT, which is kept as
+// printed text and not as SQLVal
+func (nz *normalizer) convertSeparator(node *GroupConcatExpr) {
+	if node.Separator != "" {
+		node.Separator = " separator '" + nz.prefix + "'"
+	}
 }
 
 func (nz *normalizer) convertSQLValDedup(node *SQLVal) {
